@@ -494,6 +494,9 @@ class SendTask(MethodTask):
         add('every-write-holds-the-send-lock', all(any(l is send_lock for l in ls) for ls in lock_of_write) and send_lock is not None,
             'send() writes a packet to the link without holding the lock the other senders hold: its packet can land between two packets of a message being sent', 'concurrent-send')
         add('send-lock-held-from-first-to-last-packet', not released_between, 'the send lock is released between two packets of one message', 'concurrent-send')
+        # whatever happens (failing write, cancellation), send() does not leave the link locked: later senders must get through
+        add('send-lock-released-on-every-exit', send_lock is None or not send_lock.held_by_me,
+            'send() ends while still holding the send lock: every later send() on the (re)connected link blocks for ever', 'send-after-fault')
         enc_raised = st.get('enc_raised', False)
         if self.cls == 'ActisenseNmea2000Gateway' or enc_raised:
             what = 'format-without-an-encoder' if self.cls == 'ActisenseNmea2000Gateway' else 'unencodable-message'
@@ -529,12 +532,15 @@ class ReceiveLoopTask(MethodTask):
             if a.kind == 'receive_impl':
                 w.event('suspend', 'receive_impl', [])
                 c.interfere(ex)
-                k = ex.choose(3, 'receive-impl-outcome')
-                if k == 1:
-                    w.event('fault', 'read')
-                    raise PyRaise(make_exc('ConnectionResetError', 'read failed / end of stream'))
+                k = ex.choose(6, 'receive-impl-outcome')
                 if k == 2:
                     raise PyRaise(make_exc('CancelledError'))
+                if k != 0:
+                    # a read can fail with more than OSError: end of stream (IncompleteReadError / ConnectionError), an over-long
+                    # line (readline raises ValueError), a gateway that refuses service (the EByte client raises Exception)
+                    w.event('fault', 'read')
+                    kind = {1: 'ConnectionResetError', 3: 'IncompleteReadError', 4: 'ValueError', 5: 'Exception'}[k]
+                    raise PyRaise(make_exc(kind, 'read failed / end of stream / over-long line / gateway busy'))
                 return None
             return base_await(ex, w, a)
         c.world.on_await = on_await
@@ -788,9 +794,11 @@ class ReceiveImplTask(MethodTask):
 
         def dec(ex, f, args, kwargs):
             st['decode_calls'].append(args[0])
-            k = ex.choose(3, 'decoder-outcome')
-            if k == 0:
-                raise PyRaise(make_exc('ValueError', 'undecodable packet'))
+            k = ex.choose(5, 'decoder-outcome')
+            if k in (0, 3, 4):
+                # a packet can be undecodable in many ways: a field out of range (ValueError), a truncated payload (IndexError),
+                # an unsupported PGN type or a broken header (Exception)
+                raise PyRaise(make_exc({0: 'ValueError', 3: 'IndexError', 4: 'Exception'}[k], 'undecodable packet'))
             if k == 1:
                 return None
             m = Opaque(f'message#{len(st["decode_calls"])}')
